@@ -51,6 +51,7 @@ def run(tier, seed):
              'x 3 read segmentations; plus the sweep over all 65536 two-byte headers; non-trivial = distinct frame sequences in '
              'which the real code reported a protocol error',
         nontrivial=nontrivial, anchors=anchors, variants=variants, sample_keys=('ev', 'wr'),
+        random_scripts=[{'cfgname': 'CfgPlain', 'cfg': PLAIN, 'n': (300, 4000), 'items': 'C04Items', 'faults': set()}],
         extra=lambda run: c04hdr.add(run, tier))
     missing = sorted({'critical', 'noncritical', 'close_frame_after_violation', 'valid_prefix_delivered'} - seen)
     return r.finish(vacuous=('never exercised: %s' % missing) if missing else None)
